@@ -177,6 +177,8 @@ class CFG:
     def _simple(self, st, frontier, stack, tag, kind="stmt"):
         n = self._new(kind, st, tag)
         self._connect(frontier, n)
+        if not _may_raise(st):
+            return n
         if self._in_try(stack):
             self._raise_edges(n, stack)
         else:
@@ -434,6 +436,27 @@ class CFG:
                     continue
                 stack.append((b, path + [b], facts + list(ef), used | {e}))
         return results, (count >= limit)
+
+
+_RAISING = (ast.Call, ast.Subscript, ast.Attribute, ast.BinOp, ast.Compare, ast.Await, ast.Yield, ast.YieldFrom,
+            ast.Starred, ast.ListComp, ast.DictComp, ast.SetComp, ast.GeneratorExp, ast.UnaryOp)
+
+
+def _may_raise(st: ast.AST) -> bool:
+    """False only for statements that evidently cannot raise (binding constants / names to plain names, pass, def)."""
+    if isinstance(st, (ast.Pass, ast.Global, ast.Nonlocal)):
+        return False
+    if isinstance(st, (ast.FunctionDef, ast.AsyncFunctionDef)) and not st.decorator_list:
+        return False
+    if isinstance(st, (ast.Assign, ast.AnnAssign)):
+        tg = st.targets if isinstance(st, ast.Assign) else [st.target]
+        if all(isinstance(t, ast.Name) for t in tg) and st.value is not None:
+            return any(isinstance(x, _RAISING) or (isinstance(x, ast.Name) and False) for x in ast.walk(st.value))
+    if isinstance(st, ast.If) or isinstance(st, ast.While):
+        return any(isinstance(x, _RAISING) for x in ast.walk(st.test))
+    if isinstance(st, ast.Expr) and isinstance(st.value, ast.Constant):
+        return False
+    return True
 
 
 def own_exprs(st: ast.AST) -> List[ast.AST]:
